@@ -382,6 +382,7 @@ Proof.
     assert (Hact : af_active (flags_of s app asset) = false) by (destruct (af_active _); [discriminate|reflexivity]).
     destruct ((x <=? cl_debt_thr cl - cl_lot cl) && af_debt (flags_of s app asset)) eqn:GD.
     + (* debt start: then the surplus branch is impossible *)
+      destruct (negb (has_asset (cs s) (cl_asset cl) && has_asset (cs s) (cl_secondary cl))); [discriminate|].
       apply lift_ok in H1. destruct H1 as (c1 & H1 & ->). destruct (mapping_flags _ _ _ _ _ H1) as (Hsd & Ha1).
       cbn [af_surplus af_debt with_active] in Hsd.
       assert (Hsur : af_surplus (flags_of s app asset) = false).
